@@ -498,10 +498,5 @@ func (w *World) funcExists(name string) bool {
 		j := strings.Index(rest, ".")
 		full = "(" + pikeMod + "/" + pkg + "." + rest[:j] + ")" + rest[j:]
 	}
-	for _, m := range sp.Members {
-		if t, ok := m.(interface{ Type() interface{} }); ok {
-			_ = t
-		}
-	}
 	return w.methodByFullName(sp.Pkg.Path(), full) != nil
 }
